@@ -338,6 +338,14 @@ def api_step(f, step, is_dask):
         g = f[f["i"] > step[1]]
         red = getattr(g["f"], step[2])()
         return g[g["f"] >= red] if step[2] != "count" else g[g["i"] < red]
+    if k == "filter_nonlocal":
+        # second predicate looks at neighbouring rows of the FILTERED frame
+        if not {"i", "f"} <= set(f.columns):
+            return f
+        g = f[f["i"] > step[1]]
+        how = step[2]
+        pred = {"cumsum": lambda: g["i"].cumsum() > 4, "cummax": lambda: g["i"].cummax() >= 3}[how]()
+        return g[pred]
     raise KeyError(k)
 
 
@@ -403,6 +411,13 @@ def case_api(ctx, inp):
             sig = "api:udf-on-empty-partitions:dtype"
         elif obj_str and 'Attribute "dtype" are different' in msg:
             sig = "api:object-dtype-str-accessor:dtype"
+        elif ("or_filter_binop" in names and 'Attribute "dtype" are different' in msg
+              and any(f'column name="{c}"' in msg for c in ("di", "df_"))):
+            try:   # values must agree; only the int64/float64 choice of `x - x[pred]` may differ
+                pd.testing.assert_frame_equal(got, exp, check_exact=False, rtol=1e-12, check_dtype=False)
+                sig = "api:sub-of-filtered-frame:value-dependent-dtype"
+            except AssertionError:
+                pass
         ctx.fail(f"pipeline {names} differs from pandas", sig=sig, observed=msg[:400])
         return
     for st in inp["steps"]:
@@ -592,6 +607,7 @@ STEP_MENU = [
     lambda r: ["or_filter_binop", r.randint(-1, 3)],
     lambda r: ["filter_reduction", r.randint(-2, 2), r.choice(["mean", "max", "min", "count", "sum"])],
     lambda r: ["filter_reduction", r.randint(-2, 2), r.choice(["mean", "max", "count"])],
+    lambda r: ["filter_nonlocal", r.randint(-2, 2), r.choice(["cumsum", "cummax"])],
 ]
 
 
